@@ -5,8 +5,9 @@
 
    Tiff::write_ -> Tiff::stop -> Tiff::terminate_ifd_list -> Tiff::write_ re-enter each other when a write fails.
    They are modelled as mutual recursion on a fuel argument; running out of fuel is the explicit outcome [Diverges].
-   With fix 03 (D5a: stop() leaves Running before the final write) the depth is bounded (C16Proofs.t_write_terminates);
-   without it a persistent write failure diverges for every fuel (Properties_C16.D5a_refuted). *)
+   With fix 03 (D5a: stop() leaves Running before the final write) the depth is bounded by 4 (C16Proofs.t_write_spec /
+   t_stop_spec give both functions without fuel); without it a persistent write failure exhausts any fuel tried
+   (Properties_C16.D5a_unrepaired_diverges). *)
 From Coq Require Import String.
 From Coq Require Import List Arith NArith Bool.
 From FileIO Require Import Pwrite FdTable Raw.
